@@ -41,7 +41,8 @@ def pyth(rng, k, big=6):
     return v
 
 
-EXPS = [-19, -19, -12, -3, -1, 0, 0, 0, 1, 2, 7, 30, 100, 300, 480, 490]
+EXPS = [-19, -19, -12, -3, -1, 0, 0, 0, 1, 2, 7, 30, 60, -8, 3, 5]
+BIG_EXPS = [100, 300, 480, 490]
 TVALS = [F(0), F(1), F(1), F(2), F(1, 2), F(5), F(3, 4), F(7, 8), F(10), F(800000), F(3) * 2 ** 40,
          F(1, 2 ** 19), F(2) ** 490, F(3, 2 ** 19), F(-2), F(-1, 4)]
 
@@ -71,7 +72,8 @@ def gen_cell(rng, k, mode):
         out[rng.randrange(k)] = F(x) * rng.choice([-1, 1])
         return out
     else:
-        e = rng.choice(EXPS) if rng.random() < 0.7 else rng.randint(-19, 490)
+        r2 = rng.random()
+        e = rng.choice(EXPS) if r2 < 0.8 else (rng.choice(BIG_EXPS) if r2 < 0.9 else rng.randint(-19, 490))
     return [F(x) * F(2) ** e for x in v]
 
 
@@ -190,7 +192,7 @@ def gen_rel(rng, tier):
         if r < 0.15:
             v = [0.0] * k
         else:
-            regime = rng.choice(["mid", "mid", "small", "huge", "mixed", "thr"])
+            regime = rng.choice(["mid", "mid", "mid", "small", "small", "huge", "mixed", "mixed", "thr", "thr"])
             if regime == "mid":
                 e = rng.randint(-3, 6)
                 v = [rnd_float(rng, e, e) if rng.random() < 0.85 else 0.0 for _ in range(k)]
@@ -243,13 +245,16 @@ def generate(rng, tier):
         cases.append(gen_hist(rng, tier, "thr"))
     for _ in range(40 if quick else 300):
         cases.append(gen_hist(rng, tier, "std", bad=True))
-    for _ in range(220 if quick else 2200):
+    for _ in range(160 if quick else 1600):
         cases.append(gen_rel(rng, tier))
     for _ in range(3):
         cases.append(gen_intdtype(rng))
     for _ in range(3):
         cases.append(gen_rejected(rng))
-    return cases
+    # spread the expensive kinds evenly over the Coq shards
+    head, tail = cases[:4], cases[4:]
+    rng.shuffle(tail)
+    return head + tail
 
 
 # ------------------------------------------------------------------ implementation side
